@@ -231,7 +231,7 @@ Step(e) ==
          /\ UNCHANGED mon
     [] e.e = "watchrun" ->  \* a free-running watch session of the real binary on real inotify, as observed by the driver
          /\ CheckAll({"C06"}, <<"watch-session-ended-by-itself">>, ~e.early)
-         /\ CheckAll({"C06"}, <<"last-change-not-built", e.inv, e.outv>>, ~e.early => e.outv = e.inv)
+         /\ CheckAll({"C06", "C16"}, <<"last-change-not-built", e.inv, e.outv>>, ~e.early => e.outv = e.inv)
          /\ CheckAll({"C16", "C06"}, <<"rebuilds-without-any-change", e.extra>>, e.extra = 0)
          /\ UNCHANGED mon
     [] e.e = "indep" ->     \* when a target that depends on nothing slow got to run, while 6-second command probes of others ran
